@@ -289,15 +289,34 @@ def listing_order(R, ctx):
     sorts = [bb for bb, n in seq if re.search(r'::sort(_unstable)?$', n)]
     revs = [bb for bb, n in seq if n.endswith('::reverse')]
     desc_cmp = [bb for bb, n in seq if re.search(r'::sort(_unstable)?_by(_key)?$', n)]
-    ok = len(sorts) == 1 and len(revs) == 1 and C.dominates(b, sorts[0], revs[0]) and not desc_cmp
+    p = ctx.ip.prov(b.path)
+    ret = p.roots(0)
     same = False
+    ok = len(sorts) == 1 and len(revs) == 1 and C.dominates(b, sorts[0], revs[0]) and not desc_cmp
     if ok:
-        p = ctx.ip.prov(b.path)
         r1 = p.op_roots(b.blocks[sorts[0]]['term']['args'][0])
         r2 = p.op_roots(b.blocks[revs[0]]['term']['args'][0])
-        ret = p.roots(0)
         coll = {x for x in r1 if x[0] in ('call', 'via') and 'collect' in x[1]}
         same = bool(coll) and coll <= r2 and coll <= ret
+    elif len(desc_cmp) == 1 and not sorts and not revs and re.search(r'::sort(_unstable)?_by$', callee_name(b.blocks[desc_cmp[0]]['term'])):
+        # one sort with a descending comparator `|a, b| b.cmp(a)` (or `a.cmp(b).reverse()`) is the same order
+        clo = [x for x in f.fn_bodies() if x.kind == 'Closure' and x.path.startswith(b.path + '::{closure') and
+               any(re.search(r'Ord>?::cmp$|::cmp$', callee_name(t)) for _, t in x.calls())]
+        if len(clo) == 1:
+            rows = FDI(f).run(clo[0].path, arg_names=['env', 'a', 'b'])
+            ok = bool(rows)
+            for r in rows:
+                x = r.result.x if isinstance(r.result, Sym) else None
+                rev = False
+                if isinstance(x, tuple) and x[0] == 'call' and re.search(r'Ordering::reverse$', x[1]) and x[2]:
+                    rev, x = True, T.strip_refs(x[2][0])
+                good = not r.undecided and isinstance(x, tuple) and x[0] == 'call' and re.search(r'::cmp$', x[1]) and len(x[2]) == 2 and \
+                    T.inputs_in(x[2][0]) == ({'a'} if rev else {'b'}) and T.inputs_in(x[2][1]) == ({'b'} if rev else {'a'}) and \
+                    not T.fields_in(x[2][0]) and not T.fields_in(x[2][1])
+                ok = ok and good
+            r1 = p.op_roots(b.blocks[desc_cmp[0]]['term']['args'][0])
+            coll = {x for x in r1 if x[0] in ('call', 'via') and 'collect' in x[1]}
+            same = bool(coll) and coll <= ret
     R.check('R07.3', f"{b.path}|sort-reverse", ok and same, "collected listing is sorted ascending, then reversed, then returned (newest first)",
             "the listing is not `sort ascending -> reverse` on the returned vector (cleanup would count from the wrong end and delete the newest files)",
             where=b.loc(), sample={'calls': [n.split('::')[-1] for _, n in seq][-6:]})
